@@ -1893,6 +1893,21 @@ static void get_user_data (interactive_t* ip, io_event_t* evt) {
       break;
 
     case PORT_ASCII:
+      /* Complete lines are consumed as they arrive, so only an unfinished line
+       * is kept between reads: move it to the front of the buffer, and drop it
+       * if it has (almost) filled the buffer without a newline.
+       */
+      if (ip->text_start > 0)
+        {
+          memmove (ip->text, ip->text + ip->text_start, ip->text_end - ip->text_start);
+          ip->text_end -= ip->text_start;
+          ip->text_start = 0;
+        }
+      if (ip->text_end > MAX_TEXT - MAX_TEXT / 16)
+        ip->text_end = 0;
+      text_space = MAX_TEXT - ip->text_end - 1;
+      break;
+
     case PORT_BINARY:
     default:
       /* No protocol overhead - use full buffer */
@@ -2019,8 +2034,9 @@ static void get_user_data (interactive_t* ip, io_event_t* evt) {
             char *nl, *str;
             char *p = ip->text + ip->text_start;
 
-            memcpy (p, buf, num_bytes);
-            ip->text_end = ip->text_start + num_bytes;
+            /* append after the unfinished line kept from earlier reads */
+            memcpy (ip->text + ip->text_end, buf, num_bytes);
+            ip->text_end += num_bytes;
             while ((nl = memchr (p, '\n', ip->text_end - ip->text_start)))
               {
                 ip->text_start = (nl + 1) - ip->text;
